@@ -16,6 +16,7 @@ S = "src/fcp/serde.py"
 E = "src/fcp/encoding.py"
 V = "src/fcp/verifier.py"
 CS = "plugins/fcp_cpp/fcp_cpp/can_static_schema.h"
+DY = "plugins/fcp_cpp/fcp_cpp/dynamic.h.j2"
 
 MUTATIONS = [
     # name, file, old, new, checks expected to catch it
@@ -79,7 +80,8 @@ MUTATIONS = [
     ("dbc-limit-72", "plugins/fcp_dbc/fcp_dbc/dbc_writer.py", "if msg_bitlength > 64:", "if msg_bitlength > 72:", ["C14"]),
     ("dbc-limit-first-piece", "plugins/fcp_dbc/fcp_dbc/dbc_writer.py", "msg_bitlength = encoding[-1].bitstart + encoding[-1].bitlength", "msg_bitlength = encoding[0].bitstart + encoding[-1].bitlength", ["C14"]),
     ("dbc-float-only-f32", "plugins/fcp_dbc/fcp_dbc/dbc_writer.py", "is_float=isinstance(piece.type, (FloatType, DoubleType))", "is_float=isinstance(piece.type, FloatType)", ["C05"]),
-    ("layout-dyn-zero-length", E, '            raise ValueError("Error computing type length for type " + str(type))', "            return 0", ["C14"]),
+    # (returning 0 instead of raising in PackedEncoder._get_type_length is *equivalent* for C14: generation of a CAN binding
+    #  with a str / [T] / Optional member then still fails, with AttributeError in both writers)
     ("sched-gt", "plugins/fcp_can_c/templates/can_device_c.jinja", "last_send_t[{{ loop.index0 }}] >= CAN_MSG_PERIOD", "last_send_t[{{ loop.index0 }}] > CAN_MSG_PERIOD", ["C19"]),
     ("sched-wrong-index", "plugins/fcp_can_c/templates/can_device_c.jinja", "        last_send_t[{{ loop.index0 }}] = time;", "        last_send_t[{{ [loop.index0, 1] | min }}] = time;", ["C19"]),
     ("sched-no-early-return", "plugins/fcp_can_c/templates/can_device_c.jinja", "    if (last_call_t == time) return;\n", "", ["C19"]),
@@ -115,6 +117,16 @@ MUTATIONS = [
     ("can-msgname-all-protocols", CS, """        {% for impl in fcp.get_matching_impls("can") %}
         if (sid ==""", """        {% for impl in fcp.impls if impl.fields.get('id') is not none %}
         if (sid ==""", ["C18"]),
+    ("dyn-revert-field-sort", DY, "                std::sort(fields.begin(), fields.end(),\n                        [](const StructField& a, const StructField& b) { return a.field_id < b.field_id; });\n", "", ["C13"]),
+    ("dyn-decode-signed-unsigned", DY, "return buffer.GetWord(size, true);", "return buffer.GetWord(size);", ["C13"]),
+    ("dyn-decode-string-len16", DY, "            auto length = buffer.GetWord(32);\n            std::vector<std::uint8_t> data{};", "            auto length = buffer.GetWord(16);\n            std::vector<std::uint8_t> data{};", ["C13"]),
+    ("dyn-encode-string-len16", DY, "buffer.PushWord(data.size(), 32);", "buffer.PushWord(data.size(), 16);", ["C13"]),
+    ("dyn-encode-optional-flag16", DY, "                buffer.PushWord(1, 8);", "                buffer.PushWord(1, 16);", ["C13"]),
+    ("dyn-decode-enum-bits", DY, "            auto bitsize = std::ceil(std::log2(max_value+1));\n\n            auto enum_value = DecodeUnsigned", "            auto bitsize = std::ceil(std::log2(max_value));\n\n            auto enum_value = DecodeUnsigned", ["C13"]),
+    ("dyn-encode-array-short", DY, "            for (unsigned i=0; i<type.size; i++) {\n                auto encoded = _Encode(*type.underlying_type, j[i]);", "            for (unsigned i=0; i+1<type.size || i==0; i++) {\n                auto encoded = _Encode(*type.underlying_type, j[i]);", ["C13"]),
+    ("dyn-decode-double-as-float", DY, "            double data;\n            auto word = buffer.GetWord(64);\n            std::memcpy(&data, &word, sizeof(data));", "            double data;\n            auto word = buffer.GetWord(64);\n            float tmp; std::memcpy(&data, &word, sizeof(data)); tmp = data; data = tmp;", ["C13"]),
+    ("static-array-fromjson-short", "plugins/fcp_cpp/fcp_cpp/decoders.h", "for (std::size_t i=0; i<N && i<j.size(); i++) {", "for (std::size_t i=0; i+1<N && i<j.size(); i++) {", ["C13"]),
+    ("static-signed-decodejson-unsigned", "plugins/fcp_cpp/fcp_cpp/decoders.h", "        auto word = buffer.GetWord(BitSize, true, endianess);\n        return Signed(static_cast<UnderlyingType>(word));", "        auto word = buffer.GetWord(BitSize, BitSize != 16, endianess);\n        return Signed(static_cast<UnderlyingType>(word));", ["C13", "C03"]),
     ("serde-array-last-elem", S, "    for i in range(type.size):\n        _encode(buffer, fcp, type.underlying_type, data[i])", "    for i in range(type.size):\n        _encode(buffer, fcp, type.underlying_type, data[min(i, 1)])", ["C01", "C02"]),
 ]
 
